@@ -25,7 +25,10 @@ TRUSTED = [
     "executed symbolically (same-module helpers, self._helper() and super().__init__ inlined "
     "along the C3 MRO; statements in continuation style) and the readers inspect the TERM it "
     "computes in each mode (horizon_weight None / array, multioutput raw / uniform / array, "
-    "square_root) - never the text of a statement: the three private helpers as Q expressions, "
+    "square_root) - never the text of a statement, never a private name, import alias or "
+    "constant name (imports are resolved to what they are, constants to their value, helpers are "
+    "followed into other modules of the sub-package): the per-step loss of each function as a Q "
+    "expression with all helpers inlined, "
     "the structure of the 18 public functions, their option defaults, and the wrapper facts of "
     "the 18 classes (what the constructor chain stores, what __call__ passes). Statements run for "
     "their effect alone: calls of check_consistent_length / check_time_index, and `raise` under "
@@ -387,8 +390,8 @@ def _mo_arg(mo):
 def run_impl(case):
     import warnings
     import numpy as np
-    from sktime.performance_metrics.forecasting import _functions as F
     import sktime.performance_metrics.forecasting as M
+    F = M       # the functions are observed through the public package namespace only
     warnings.simplefilter("ignore")
     kind = case["kind"]
     if kind == "class_opts":
@@ -401,7 +404,10 @@ def run_impl(case):
             for nm in case["opts"]:
                 v = getattr(obj, nm, "<missing>")
                 stored[nm] = getattr(v, "__name__", v)
-            return {"stored": stored, "func": getattr(obj._func, "__name__", "?")}
+            # the wrapped function, under whatever private attribute the class keeps it
+            held = sorted(getattr(v, "__name__", "?") for k, v in vars(obj).items()
+                          if k not in case["opts"] and callable(v))
+            return {"stored": stored, "func": held[0] if len(held) == 1 else ",".join(held)}
         except (TypeError, ValueError, AttributeError) as e:
             return {"err": type(e).__name__, "msg": str(e)[:160]}
     f = getattr(F, case["metric"])
